@@ -161,11 +161,18 @@ class PydanticConverter:
 
         if self.validate_output:
             self.output_type: type = signature.return_annotation
-            if not issubclass(self.output_type, BaseModel):
+            if not self._is_model(self.output_type):
                 self.output_pydantic_model = self._generate_output_model(
                     fn.__name__,
                     signature.return_annotation,
                 )
+
+    @staticmethod
+    def _is_model(annotation: Any) -> bool:
+        try:
+            return issubclass(annotation, BaseModel)
+        except TypeError:  # not a class, e.g. `int | None`
+            return False
 
     @staticmethod
     def _generate_output_model(fn_name: str, return_annotation: Any) -> BaseModel:
@@ -187,7 +194,7 @@ class PydanticConverter:
     def convert_outputs(self, data: FnR) -> str:
         if not self.validate_output:  # there is not type to validate
             return JSON_ENCODER.encode(data)  # fallback to JSON encoding
-        if issubclass(self.output_type, BaseModel):
+        if self._is_model(self.output_type):
             if isinstance(data, BaseModel):
                 return data.model_dump_json()
             return self.output_type.model_validate(data).model_dump_json()
@@ -226,7 +233,7 @@ class PydanticV1Converter(PydanticConverter):  # pragma: no cover
     def convert_outputs(self, data: FnR) -> str:
         if not self.validate_output:  # there is not type to validate
             return JSON_ENCODER.encode(data)  # fallback to JSON encoding
-        if issubclass(self.output_type, BaseModel):
+        if self._is_model(self.output_type):
             if isinstance(data, BaseModel):
                 return data.json()
             return self.output_type.parse_obj(data).json()
